@@ -104,6 +104,8 @@ def r2(fx):
             m = genv['make_matrix'](n, n)
             grid0 = m.grid()
             res = f(m, n, n)
+            if not [x for x in log if x[0] == 'apply']:
+                raise Unknown('find_and_apply_best_mask does not mask through apply_mask: the candidates cannot be told apart by its calls')
             best = (max if micro else min)(sc)
             want = sc.index(best)
             probs = []
@@ -140,6 +142,8 @@ def r3(fx):
             m = genv['make_matrix'](n, n)
             c0 = m.grid()[0][0]
             res = f(m, n, n, k)
+            if not [x for x in log if x[0] == 'apply']:
+                raise Unknown('find_and_apply_best_mask does not mask through apply_mask: which pattern is applied cannot be read off its calls (decided end to end by R10)')
             t = tag_of(res[1]) if isinstance(res, tuple) and len(res) == 2 and res[1] is not None else None
             ok = isinstance(res, tuple) and res[0] == k and t == ('masked', k, c0) and not [x for x in log if x[0] == 'eval']
             yield ob(f'{"Micro" if micro else "QR"} requested mask {k}', ok, fn, got=(res[0] if isinstance(res, tuple) else res, t, log[:3]),
